@@ -501,6 +501,29 @@ func (c *Ctx) getSinceFilter(fi *load.FuncInfo) {
 			return true
 		}
 		fl, ok := call.Args[1].(*ast.FuncLit)
+		if !ok {
+			// the predicate may be a local bound once to a function literal: sinceDate := func(...) bool {...}
+			if id, isID := call.Args[1].(*ast.Ident); isID {
+				obj := info.ObjectOf(id)
+				defs := 0
+				ast.Inspect(fi.Decl.Body, func(m ast.Node) bool {
+					as, isAs := m.(*ast.AssignStmt)
+					if !isAs || len(as.Lhs) != len(as.Rhs) {
+						return true
+					}
+					for i, l := range as.Lhs {
+						if lid, isL := l.(*ast.Ident); isL && info.ObjectOf(lid) == obj {
+							defs++
+							if lit, isLit := as.Rhs[i].(*ast.FuncLit); isLit {
+								fl = lit
+							}
+						}
+					}
+					return true
+				})
+				ok = fl != nil && defs == 1
+			}
+		}
 		if ok {
 			// a filter that remembers anything judges rows by their position, not by their own date
 			if m := dtab.FromFuncLit(info, fl); len(m.State) > 0 {
